@@ -23,6 +23,14 @@ DCell(c) == Cell(c[1], DVals(c[2]))
 DHeap(h) == [r \in DOMAIN h |-> DCell(h[r])]
 DOp(o)   == Op(o[1], o[2], o[3], o[4], DVal(o[5]), DVals(o[6]), o[7])
 
+\* the log carries the heap as a delta: n = number of cells, ch = the cells that differ from the
+\* previous line (<<id, cell>>); every other cell must be unchanged
+Matches(h2, e) ==
+  LET changed == {e.ch[i][1] : i \in DOMAIN e.ch} IN
+  /\ Len(h2) = e.n
+  /\ \A i \in DOMAIN e.ch : e.ch[i][1] \in DOMAIN h2 /\ h2[e.ch[i][1]] = DCell(e.ch[i][2])
+  /\ \A r \in (DOMAIN h2) \ changed : r \in DOMAIN heap /\ h2[r] = heap[r]
+
 TraceInit == heap = <<>> /\ l = 1 /\ TLCSet(1, 1)
 
 Step ==
@@ -32,7 +40,7 @@ Step ==
        ELSE \E res \in Apply(heap, DOp(e.o)) :
               /\ res.out.p = e.p
               /\ res.out.ret = DVal(e.ret)
-              /\ res.heap = DHeap(e.h)
+              /\ Matches(res.heap, e)
               /\ heap' = res.heap
   /\ l' = l + 1
 
